@@ -247,6 +247,10 @@ def nnx_part(chk):
       rest_m = bool([i for i in exp[-1] if i != 7])
       run('nnx.state', lambda: nnx.state(root, *fs), case['invalid'], as_list)
       run('nnx.split', lambda: nnx.split(root, *fs)[1:], case['invalid'] or rest_m, as_list)
+      # nnx.variables groups the live Variable objects by the same filters: the same groups, one State per filter
+      # (its leaves are Variables, not VariableStates: lists that mention the VariableState type are not comparable)
+      if 'VS' not in key:
+        run('nnx.variables', lambda: nnx.variables(root, *fs), case['invalid'], as_list)
     chk.count(key)
   chk.sample({'spec': 'NnxFilters', 'case': cases[len(cases) // 2]})
   # lossless: merging the groups gives back the state
